@@ -341,7 +341,7 @@ func (p *Party) Fund(ctx context.Context, req channel.FundingReq) error {
 	if err != nil {
 		return err
 	}
-	t := time.NewTimer(time.Duration(req.Params.ChallengeDuration) * time.Second)
+	t := time.NewTimer(challenge(req.Params))
 	defer t.Stop()
 	select {
 	case <-fundedCh:
@@ -363,6 +363,16 @@ func (p *Party) Fund(ctx context.Context, req channel.FundingReq) error {
 		}
 		return channel.NewFundingTimeoutError(errs)
 	}
+}
+
+// challenge converts a challenge duration in seconds to a simulated duration,
+// saturating at about 100 years (the field is a uint64 of seconds).
+func challenge(p *channel.Params) time.Duration {
+	const maxSec = 100 * 365 * 24 * 3600
+	if p.ChallengeDuration > maxSec {
+		return maxSec * time.Second
+	}
+	return time.Duration(p.ChallengeDuration) * time.Second
 }
 
 func verifyAll(params *channel.Params, st *channel.State, sigs []wallet.Sig) error {
@@ -502,12 +512,12 @@ func (l *Ledger) register(req channel.AdjudicatorReq, subs []channel.SignedState
 		_ = anyChange
 	}
 	if first {
-		c.timeoutAt = now + time.Duration(req.Params.ChallengeDuration)*time.Second
+		c.timeoutAt = now + challenge(req.Params)
 		if st.IsFinal {
 			c.timeoutAt = now
 		}
 	} else if l.ExtendOnRefute && anyChange {
-		c.timeoutAt = now + time.Duration(req.Params.ChallengeDuration)*time.Second
+		c.timeoutAt = now + challenge(req.Params)
 	}
 	for _, it := range items {
 		if !it.change {
